@@ -249,8 +249,7 @@ def ref_format(v, cmap, rec, depth):
             items = list(string.Formatter().parse(v))
         except ValueError:
             raise RefUnsupported()
-        if any('{' in it[0] or '}' in it[0] for it in items):
-            raise RefUnsupported()      # escapes: covered by the escapes monitor
+        # literal text comes out of parse() already un-escaped ({{ -> {) and is emitted as it is
         fields = [it for it in items if it[1] is not None]
         for lit, name, spec, conv in fields:
             if conv or spec not in ('', 'rf', 'ff') or not name.isidentifier():
@@ -292,8 +291,9 @@ def ref_format(v, cmap, rec, depth):
 def gen_rf_case(rng):
     """rf / ff through containers: elements that are mixed text referencing keys that hold
     further expressions."""
-    c = rng.choice(['C', 'see', 7])
-    ctx = [['c', c], ['b', rng.choice(['{c}', 'b{c}b', '{c}{c}'])],
+    c = rng.choice(['C', 'see', 7, 'x {{y}} z', '{{not an expr}}', {'sic': 'keep {y} raw'}, '{d:ff}', '{d}'])
+    ctx = [['y', 'SURPRISE'], ['d', rng.choice(['{y}', 'd {{y}}', 5])],
+           ['c', c], ['b', rng.choice(['{c}', 'b{c}b', '{c}{c}'])],
            ['a', rng.choice(['{b}', 'a {b}', '{b} {c}'])]]
     elems = [rng.choice(['x {b} y', '{b}', '{a}!', 'plain', '{a} and {b}', 3]) for _ in range(rng.randrange(1, 4))]
     kind = rng.choice(['l', 'l', 't', 'd', 'nested'])
